@@ -801,6 +801,174 @@ out:
 }
 
 /* ------------------------------------------------------------------ */
+/*
+ * A renegotiation hello from a scripted peer that holds the connection keys (records sealed by the independent
+ * record layer) but does not prove the binding to the previous handshake: renegotiation_info absent, empty (as in
+ * a first handshake), of the right length with other bytes, one byte too long - sent as ClientHello to a server
+ * that allows renegotiation, or as ServerHello in answer to the renegotiation a client has just asked for. The
+ * victim must end with BR_ERR_BAD_SECRENEG (never complete, never change keys). Control: the right value is taken.
+ */
+static size_t
+hello_ext_offset(const unsigned char *m, size_t ml, int is_sh)
+{
+	size_t o = 4 + 2 + 32;
+	if (ml < o + 1) return 0;
+	o += 1 + m[o];
+	if (is_sh) o += 3;
+	else { if (o + 2 > ml) return 0; o += 2 + (((size_t)m[o] << 8) | m[o + 1]); if (o + 1 > ml) return 0; o += 1 + m[o]; }
+	return o <= ml ? o : 0;
+}
+
+static void
+rogue_hello_case(long long seed, long idx)
+{
+	static const char *const vn[6] = { "binding-absent", "binding-empty", "binding-other-bytes", "binding-one-byte-longer", "no-extension-block", "control-right-binding" };
+	sess s;
+	vf_rng r;
+	int victim = (int)(idx & 1);         /* 0: client (gets a ServerHello), 1: server (gets a ClientHello) */
+	int variant = (int)((idx >> 1) % 6);
+	int dir_in = victim == 0 ? 1 : 0, dir_out = 1 - dir_in;
+	tp_ep *RX;
+	tp_fifo *fout;
+	rm_cipher cs;
+	rm_forge_opts fo;
+	unsigned char msg[2400], rec[2600], ri[40];
+	const unsigned char *old; size_t oldl, eo, ml, rl, fed = 0, ril = 0, hl;
+	int guard = 0, e_in, e_out, sh0;
+	char what[300];
+
+	vf_rng_init(&r, (uint64_t)seed, (uint64_t)idx * 3 + 11);
+	memset(&RI, 0, sizeof RI);
+	{
+		/* as sess_start, with the Finished monitor attached from the first byte */
+		int layout_c = (int)vf_below(&r, 3), layout_s = (int)vf_below(&r, 3);
+		long q = idx / 12;
+		s.si = tp_suite_find(modes[q % NMODES]);
+		s.version = s.si->tls12only ? 0x0303 : 0x0301 + (unsigned)((q / NMODES) % 3);
+		tp_cfg_default(&s.cc, 0); tp_cfg_default(&s.sc, 1);
+		s.cc.layout = layout_c; s.sc.layout = layout_s;
+		s.cc.buflen = layout_c == TP_LAYOUT_MONO ? BR_SSL_BUFSIZE_MONO : (layout_c == TP_LAYOUT_SPLIT1 ? BR_SSL_BUFSIZE_BIDI : BR_SSL_BUFSIZE_INPUT);
+		s.cc.buflen_out = BR_SSL_BUFSIZE_OUTPUT;
+		s.sc.buflen = layout_s == TP_LAYOUT_MONO ? BR_SSL_BUFSIZE_MONO : (layout_s == TP_LAYOUT_SPLIT1 ? BR_SSL_BUFSIZE_BIDI : BR_SSL_BUFSIZE_INPUT);
+		s.sc.buflen_out = BR_SSL_BUFSIZE_OUTPUT;
+		s.sl[0] = s.si->id; s.cc.suites = s.sl; s.cc.nsuites = 1; s.cc.vmin = s.cc.vmax = s.version;
+		s.sc.keykind = tp_key_for_suite(s.si, 0);
+		vf_bytes(&r, s.cc.seed, 32); vf_bytes(&r, s.sc.seed, 32);
+		tp_pair_init(&s.p, vf_u64(&r), (uint64_t)idx, TP_CHUNK_WHOLE);
+		s.p.c.tx_key = vf_u64(&r); s.p.s.tx_key = vf_u64(&r);
+		tm_pair_attach(&s.pm, &s.p);
+		s.pm.m.rm.on_hs = ri_hs;
+		if (!tp_ep_start(&s.p.c, &s.cc) || !tp_ep_start(&s.p.s, &s.sc) || !tp_handshake(&s.p, 2000000)) { TP_VIOL("setup", "handshake failed"); sess_end(&s); return; }
+		s.p.c.tx_key = s.pm.m.key[0]; s.p.c.rx_key = s.pm.m.key[1]; s.p.s.tx_key = s.pm.m.key[1]; s.p.s.rx_key = s.pm.m.key[0];
+	}
+	tp_run_data(&s.p, 80, 80, TP_W_SMALL, 100000);
+	tp_settle(&s.p, 100000);
+	snprintf(tp_case, sizeof tp_case, "%s rogue-hello idx=%ld suite=%s ver=%04x victim=%s variant=%s layouts=%d/%d", base, idx, s.si->name, s.version,
+		victim ? "server" : "client", vn[variant], s.cc.layout, s.sc.layout);
+	if (!RI.have[0] || !RI.have[1]) { TP_VIOL("setup", "Finished values of the first handshake were not observed"); sess_end(&s); return; }
+	RX = victim == 0 ? &s.p.c : &s.p.s;
+	fout = victim == 0 ? &s.p.c2s : &s.p.s2c;
+	e_in = s.pm.m.rm.cs[dir_in].epoch; e_out = s.pm.m.rm.cs[dir_out].epoch;
+	sh0 = s.pm.m.rm.n_sh;
+	/* binding value */
+	switch (variant) {
+	case 1: ri[0] = 0; ril = 1; break;
+	case 2: case 3: case 5:
+		hl = victim == 0 ? 24 : 12;
+		ri[0] = (unsigned char)hl;
+		memcpy(ri + 1, RI.vd[0], 12);
+		if (victim == 0) memcpy(ri + 13, RI.vd[1], 12);
+		ril = 1 + hl;
+		if (variant == 2) ri[1 + vf_below(&r, (uint32_t)hl)] ^= (unsigned char)(1u << vf_below(&r, 8));
+		if (variant == 3) { ri[0] ++; ri[ril ++] = 0x5A; }
+		break;
+	default: break;
+	}
+	/* the hello: the one of the first handshake with a fresh random, an empty session ID and the extension replaced */
+	old = victim == 0 ? s.pm.m.rm.last_sh : s.pm.m.rm.last_ch;
+	oldl = victim == 0 ? s.pm.m.rm.last_sh_len : s.pm.m.rm.last_ch_len;
+	eo = hello_ext_offset(old, oldl, victim == 0);
+	if (eo == 0 || oldl > 2000) { TP_VIOL("setup", "hello of the first handshake not captured"); sess_end(&s); return; }
+	{
+		size_t o = 0, sid = old[38], tail = 39 + sid, xo, xl = 0, mark;
+		memcpy(msg, old, 38); o = 38;
+		vf_bytes(&r, msg + 6, 32);
+		msg[o ++] = 0;                                        /* no session ID */
+		memcpy(msg + o, old + tail, eo - tail); o += eo - tail;   /* suite(s), compression */
+		if (variant != 4) {
+			mark = o; o += 2;
+			if (eo + 2 <= oldl) { xl = ((size_t)old[eo] << 8) | old[eo + 1]; xo = eo + 2; } else xo = eo;
+			while (xl >= 4) {
+				unsigned t = ((unsigned)old[xo] << 8) | old[xo + 1];
+				size_t el = ((size_t)old[xo + 2] << 8) | old[xo + 3];
+				if (el + 4 > xl) break;
+				if (t != 0xFF01) { memcpy(msg + o, old + xo, 4 + el); o += 4 + el; }
+				xo += 4 + el; xl -= 4 + el;
+			}
+			if (variant != 0) {
+				msg[o ++] = 0xFF; msg[o ++] = 0x01; msg[o ++] = 0; msg[o ++] = (unsigned char)ril;
+				memcpy(msg + o, ri, ril); o += ril;
+			}
+			msg[mark] = (unsigned char)((o - mark - 2) >> 8); msg[mark + 1] = (unsigned char)(o - mark - 2);
+		}
+		ml = o;
+		msg[1] = (unsigned char)((ml - 4) >> 16); msg[2] = (unsigned char)((ml - 4) >> 8); msg[3] = (unsigned char)(ml - 4);
+	}
+	if (victim == 0) {
+		/* the client asks; its ClientHello goes to the scripted peer */
+		if (!tp_act_reneg(RX)) { TP_VIOL("reneg:refused", "br_ssl_engine_renegotiate returned 0 on an idle connection"); sess_end(&s); return; }
+		while (!tp_ep_closed(RX) && (br_ssl_engine_current_state(RX->eng) & BR_SSL_SENDREC)) {
+			size_t got = tp_act_sendrec(RX, fout, 100000);
+			tm_tap(&s.pm.m, dir_out, fout->data + fout->wr - got, got);
+			fout->rd = fout->wr;
+		}
+	}
+	cs = s.pm.m.rm.cs[dir_in];
+	rm_forge_defaults(&fo);
+	rl = rm_seal(&cs, 22, msg, ml, &fo, &r, 1, rec);
+	vf_stat("rogue_hello_cases", 1);
+	while (guard ++ < 10000 && !tp_ep_closed(RX)) {
+		size_t l; unsigned char *b;
+		if (br_ssl_engine_current_state(RX->eng) & BR_SSL_SENDREC) {
+			size_t got = tp_act_sendrec(RX, fout, 100000);
+			tm_tap(&s.pm.m, dir_out, fout->data + fout->wr - got, got);
+			fout->rd = fout->wr;
+			continue;
+		}
+		if (fed >= rl) break;
+		b = br_ssl_engine_recvrec_buf(RX->eng, &l);
+		if (b == NULL) break;
+		if (l > rl - fed) l = rl - fed;
+		memcpy(b, rec + fed, l); fed += l;
+		br_ssl_engine_recvrec_ack(RX->eng, l);
+		tp_calls ++; tp_check(RX, "recvrec_ack");
+	}
+	rm_drain(&s.pm.m.rm, dir_out);
+	if (s.pm.m.rm.cs[dir_in].epoch != e_in || s.pm.m.rm.cs[dir_out].epoch != e_out) { TP_VIOL("rogue-hello:keys-changed", "keys changed after a renegotiation hello from a scripted peer"); goto out; }
+	if (variant == 5) {
+		/* control: the hello is taken: no failure; a server answers with its ServerHello */
+		if (tp_ep_closed(RX) || (victim == 1 && s.pm.m.rm.n_sh != sh0 + 1)) {
+			snprintf(what, sizeof what, "renegotiation hello with the right binding not taken: closed=%d err=%d server hellos %d -> %d", tp_ep_closed(RX), br_ssl_engine_last_error(RX->eng), sh0, s.pm.m.rm.n_sh);
+			TP_VIOL("rogue-hello:control-failed", what);
+		} else vf_stat("rogue_hello_controls_ok", 1);
+		goto out;
+	}
+	if (!tp_ep_closed(RX) || br_ssl_engine_last_error(RX->eng) == 0) {
+		snprintf(what, sizeof what, "renegotiation hello without a valid binding (%s) did not fail the %s: state=%u err=%d", vn[variant], victim ? "server" : "client",
+			br_ssl_engine_current_state(RX->eng), br_ssl_engine_last_error(RX->eng));
+		TP_VIOL("rogue-hello:unbound-renegotiation-not-refused", what);
+		goto out;
+	}
+	if (victim == 1 && s.pm.m.rm.n_sh != sh0) { TP_VIOL("rogue-hello:server-answered-unbound-hello", "server sent a ServerHello for a renegotiation hello without a valid binding"); goto out; }
+	vf_stat("rogue_hello_refused", 1);
+	vf_stat(br_ssl_engine_last_error(RX->eng) == BR_ERR_BAD_SECRENEG ? "rogue_hello_refused_bad_secreneg" : "rogue_hello_refused_other_error", 1);
+	vf_distinct("rogue_hello_err", "%s/%s/%d", victim ? "server" : "client", vn[variant], br_ssl_engine_last_error(RX->eng));
+out:
+	vf_distinct("rogue_hello_cfg", "%d/%04x/%d/%d", s.si->enc, s.version, victim, variant);
+	sess_end(&s);
+}
+
+/* ------------------------------------------------------------------ */
 /* br_sslio wrapper: the client is driven through br_sslio_*; its callbacks pump the server */
 
 typedef struct {
@@ -1507,6 +1675,7 @@ main(int argc, char **argv)
 		else if (!strcmp(mode, "prealert")) prealert_case(seed, idx);
 		else if (!strcmp(mode, "sslio2")) sslio2_case(seed, idx);
 		else if (!strcmp(mode, "reuse")) reuse_case(seed, idx);
+		else if (!strcmp(mode, "roguehello")) rogue_hello_case(seed, idx);
 		vf_stat("cases", 1);
 	}
 	vf_stat("monitored_calls", tp_calls);
